@@ -1048,7 +1048,73 @@ def fam_scalar(vt, cfg):
     return out
 
 
+# ---------------------------------------------------------------------------
+# C15 vector denominators
+
+def denom_env_ok(vt, dname):
+    def ok(vals, names):
+        a, d = vals[names.index("a")], vals[names.index(dname)]
+        M = (1 << vt.eb) - 1
+        lanes = vt.n if dname == "b" else 1
+        for i in range(vt.n):
+            x = (a >> (i * vt.eb)) & M
+            y = (d >> ((i if dname == "b" else 0) * vt.eb)) & M
+            if y == 0:
+                return False
+            if vt.signed and x == 1 << (vt.eb - 1) and y == M:
+                return False
+        return True
+    return ok
+
+
+def fam_vdenom(vt, cfg):
+    if not vt.is_int:
+        return []
+    I = []
+    q = "sdiv" if vt.signed else "udiv"
+    r = "srem" if vt.signed else "urem"
+    D = "avel::Denominator<V>"
+    DS = "avel::Denominator<S>"
+    # per-lane divisors
+    for nm, body, o in (("vd_quot", "div(a, %s{b}).quot" % D, q), ("vd_rem", "div(a, %s{b}).rem" % D, r),
+                        ("vd_quo_op", "a / %s{b}" % D, q), ("vd_rem_op", "a %% %s{b}" % D, r)):
+        i = Inst(nm, VV, "V", body, lanewise2(lambda c, x, y, o=o: T.op(o, c.vt.eb, x, y)))
+        i.env_ok = denom_env_ok(vt, "b")
+        i.clause = "value"
+        i.budget_s = 3
+        I.append(i)
+    for nm, pre, o in (("vd_quo_assign", "a /= %s{b};" % D, q), ("vd_rem_assign", "a %%= %s{b};" % D, r)):
+        i = Inst(nm, VV, "V", "a", lanewise2(lambda c, x, y, o=o: T.op(o, c.vt.eb, x, y)), pre=pre)
+        i.env_ok = denom_env_ok(vt, "b")
+        i.clause = "value"
+        i.budget_s = 3
+        I.append(i)
+    # broadcast from a scalar denominator: same results as the vector {d,d,...}
+    AS = [("V", "a"), ("S", "d")]
+    for nm, body, o in (("bc_quot", "div(a, %s{%s{d}}).quot" % (D, DS), q),
+                        ("bc_rem", "div(a, %s{%s{d}}).rem" % (D, DS), r)):
+        i = Inst(nm, AS, "V", body,
+                 lambda c, o=o: c.pack([T.op(o, c.vt.eb, x, c.args["d"]) for x in c.lanes("a")]))
+        i.env_ok = denom_env_ok(vt, "d")
+        i.clause = "broadcast"
+        i.budget_s = 3
+        I.append(i)
+    for nm, body in (("bcref_quot", "div(a, %s{V{d}}).quot" % D), ("bcref_rem", "div(a, %s{V{d}}).rem" % D)):
+        i = Inst(nm, AS, "V", body, None)
+        i.wrapper_only = True
+        I.append(i)
+    # value() returns the divisors
+    i = Inst("vd_value", [("V", "b")], "V", "%s{b}.value()" % D, lambda c: c.args["b"])
+    i.clause = "value()"
+    I.append(i)
+    i = Inst("bc_value", [("S", "d")], "V", "%s{%s{d}}.value()" % (D, DS), lambda c: c.pack([c.args["d"]] * c.vt.n))
+    i.clause = "value()"
+    I.append(i)
+    return I
+
+
 FAMILIES = {
+    "vdenom": fam_vdenom,
     "div": fam_div,
     "fpclass": fam_fpclass,
     "scalar": fam_scalar,
